@@ -45,9 +45,18 @@ const (
 	slotWait      = 5 * time.Second // a closed connection's slot must be free again within this time
 )
 
+// stacks returns the stacks of the goroutines that are inside the library (package client), blocked ones first in the
+// runtime's order; the harness's own goroutines are left out.
 func stacks() string {
-	buf := make([]byte, 1<<16)
-	return string(buf[:runtime.Stack(buf, true)])
+	buf := make([]byte, 1<<18)
+	all := strings.Split(string(buf[:runtime.Stack(buf, true)]), "\n\n")
+	var lib []string
+	for _, g := range all {
+		if strings.Contains(g, "go-cassandra-native-protocol/client.") {
+			lib = append(lib, g)
+		}
+	}
+	return fmt.Sprintf("%d goroutines, %d of them in package client:\n%s", len(all), len(lib), strings.Join(lib, "\n\n"))
 }
 
 func runAcceptSession(ss acceptSession, fail func(kind, what string)) {
